@@ -117,6 +117,12 @@ class DiGraphEx(nx.DiGraph):
         if target_nodes is not None:
             graph = graph.minimal_induced_subgraph(target_nodes).copy()
 
+        # networkx's subgraph / copy create a fresh instance: carry the node tables over
+        graph.tag = deepcopy(self.tag)
+        graph.debug = deepcopy(self.debug)
+        graph.setup = deepcopy(self.setup)
+        graph.compound_priority = deepcopy(self.compound_priority)
+
         return graph
 
     @property
